@@ -1,6 +1,6 @@
 """C19 ARM64 JIT output is equivalent to the interpreter."""
 import astq
-from rules import a64hsem, a64patch, a64sem, genreset, jit, jitcross, rtpreserve, a64dsread, a64fp, cfrcross
+from rules import a64hsem, a64patch, a64sem, genreset, jit, jitcross, rtpreserve, a64dsread, a64fp, cfrcross, readreg
 
 LEVEL = 'other'
 TECHNIQUE = ('cross-target parse (clang --target=aarch64) of the back-end that this host never compiles + sibling agreement with the interpreter on resolved-AST feature vectors, known-bits and A64 logical-immediate decoding of emitted constants, max-path code-size bound against the assembled template, known-bits abstract execution of the immediate helpers over 529 immediate classes'
@@ -41,6 +41,9 @@ EXPLANATION += ' LW-POS-EXEC, A64-RT-CALLDEST.'
 CLAIM += (' The calls in the copied part of the template that leave it target exactly code + CodeSize, where generateSuperscalarHash writes the item routine (A64-RT-CALLDEST); mark values by execution (LW-POS-EXEC).')
 
 
+CLAIM += (' Every instruction word the A64, RV64 and vector-RV64 program generators build from the read-register members of the program configuration is, evaluated and decoded, an XOR of the registers of (readReg0, readReg1) - 64-bit - or of (readReg2, readReg3), and each back-end builds both (JIT-READREG; specification 4.6.2 steps 1 and 5).')
+EXPLANATION += ' JIT-READREG.'
+
 def run(ctx, R):
     FI = astq.Facts(ctx, 'K0')
     R.saw(config='K2')
@@ -79,3 +82,4 @@ def run(ctx, R):
     cfrcross.rule_a64(ctx, R)
     jitcross.rule_lwexec_a64(ctx, R)
     rtpreserve.rule_a64_calldest(ctx, R)
+    readreg.rule_readreg(ctx, R)
